@@ -171,7 +171,9 @@ func (r *subRegistry) Referrers(ctx context.Context, repo string, digest ociregi
 // they refer to the prefixed names rather than the originals.
 func (r *subRegistry) mapScopes(ctx context.Context) context.Context {
 	scope := ociauth.ScopeFromContext(ctx)
-	if scope.IsEmpty() {
+	if scope.IsEmpty() || scope.IsUnlimited() {
+		// Note: the unlimited scope has no elements to rewrite
+		// (and Len panics on it).
 		return ctx
 	}
 	// TODO we could potentially provide a Scope constructor
